@@ -44,6 +44,18 @@ class SymRandom:
         ctx.draws.append(u)
         return u
 
+    def random(self, size=None):
+        if size is not None:
+            raise sx.EngineUnsupported("np.random.random with a size")
+        return self.rand()
+
+    random_sample = random
+
+    def uniform(self, low=0.0, high=1.0, size=None):
+        if size is not None:
+            raise sx.EngineUnsupported("np.random.uniform with a size")
+        return low + (high - low) * self.rand()
+
     def seed(self, s=None):
         sx.cur().stream.append(('seed', s))
 
@@ -83,10 +95,16 @@ class ScriptedRand:
             me.calls += 1
             return me.draws[i] if i < len(me.draws) else me.default
         _real_np.random.rand = rand
+        self._orig_more = {k: getattr(_real_np.random, k) for k in ('random', 'random_sample', 'uniform')}
+        _real_np.random.random = lambda size=None: rand()
+        _real_np.random.random_sample = lambda size=None: rand()
+        _real_np.random.uniform = lambda low=0.0, high=1.0, size=None: low + (high - low) * rand()
         return self
 
     def __exit__(self, *a):
         _real_np.random.rand = self._orig
+        for k, v in self._orig_more.items():
+            setattr(_real_np.random, k, v)
 
 
 class BoxModel:
